@@ -139,8 +139,9 @@ func allProps() []PropSpec {
 				{Func: "ZZ_C11_H1", Pkg: "pkg/protocol/http1", Quick: map[string]int{"P": 1, "H": 1, "B": 1}, Thorough: map[string]int{"P": 2, "H": 2, "B": 2}, Covers: []string{"reached-assert", "with-body"}},
 				{Func: "ZZ_C11_H2", Pkg: "pkg/protocol/http1/resp", Covers: []string{"reached-assert", "too-large"}},
 				{Func: "ZZ_C11_BIG", Pkg: "pkg/protocol/http1", Covers: []string{"reached-assert"}, Unwind: 20000, MaxSteps: 8000000, Note: "8 KiB+ streamed request body across copy-buffer boundaries"},
+				{Func: "ZZ_C11_MP", Pkg: "pkg/protocol", Quick: map[string]int{"F": 4, "V": 2}, Thorough: map[string]int{"F": 6, "V": 3}, Covers: []string{"reached-assert", "short-first-read"}, Unwind: 40000, MaxSteps: 8000000, Note: "multipart body assembly (WriteMultipartFormFile + AddMultipartFormField on the real mime/multipart.Writer run from SSA): symbolic file/field bytes, file reader returning short reads; random boundary and net/http.DetectContentType are stubs"},
 			},
-			Assumptions: []string{"multipart and URL-encoded form bodies, proxy form, gzip helpers and HostClient.Do plumbing are outside this revision", "the independent parser is the real hertz server (Serve over standard.Conn) plus the strict line reader of C05; net/http is not used as second decoder", "response templates: fixed, chunked+trailer, 204, 304, 100-continue+final, read-until-close with 3 symbolic body bytes and one symbolic header value byte"},
+			Assumptions: []string{"multipart bodies: only the assembly of parts (ZZ_C11_MP; random boundary and content sniffing stubbed) - the read-back through mime/multipart.Reader in handleMultipart and the server's multipart parser are outside; URL-encoded form bodies, proxy form, gzip helpers and HostClient.Do plumbing are outside", "the independent parser is the real hertz server (Serve over standard.Conn) plus the strict line reader of C05; net/http is not used as second decoder", "response templates: fixed, chunked+trailer, 204, 304, 100-continue+final, read-until-close with 3 symbolic body bytes and one symbolic header value byte"},
 		},
 		{
 			ID: "C04",
